@@ -163,6 +163,9 @@ def judge(part, name, key, mode, args_py, want, form, prog=None):
     else:
         r = sandbox.run_program(prog, stack=list(args))
         stack, exc = r.stack, r.exc
+    if isinstance(exc, sandbox.CaseTimeout):
+        part.cap("backstop hit (slow is not wrong): %s" % (key or prog))
+        return
     if exc is not None:
         ok, obs = False, "raises %s: %s" % (type(exc).__name__, str(exc)[:60])
     else:
